@@ -1014,7 +1014,7 @@ class Walk:
         self.max_pkt = max_pkt
         if rich and cfg is None and rng.random() < rich:
             # executor and transport behaviour are not the client's to choose: any mix of them
-            cfg = ' '.join(x for x in [rng.choice(['', '', 'exec=sweep']), rng.choice(['', '', 'rd=fill']),
+            cfg = ' '.join(x for x in [rng.choice(['', '', 'exec=sweep']), rng.choice(['', '', 'wk=fresh']), rng.choice(['', '', 'rd=fill']),
                                        rng.choice(['', '', 'rdp=1']), rng.choice(['', '', 'wr=one', 'wr=pend', 'wr=pendone']),
                                        rng.choice(['', '', 'wflush=err', 'wflush=pend']), rng.choice(['', '', 'wclose=err', 'wclose=pend'])] if x) or None
         self.s = Sess(name, cfg)
@@ -1257,11 +1257,17 @@ class Walk:
             s.live_ops.pop(op)
             self.outstanding -= 1
         elif kind == 'suback':
-            s.feed(m.suback(pid, [rng.choice([0, 1, 2, 0x80, 0x87, 0x97]) for _ in range(d.get('nf', 1))], rand_props(rng, [31], p=0.3)))
+            nr = d.get('nf', 1)
+            if self.rich and rng.random() < 0.1 * self.rich:
+                nr = max(1, nr + rng.choice([-1, 1, 2]))        # a broker answering with fewer / more reason codes than filters
+            s.feed(m.suback(pid, [rng.choice([0, 1, 2, 0x80, 0x87, 0x97]) for _ in range(nr)], rand_props(rng, [31], p=0.3)))
             s.live_ops.pop(op)
             s.rsps.add(op)
         elif kind == 'unsuback':
-            s.feed(m.unsuback(pid, [rng.choice(m.UNSUBACK_REASONS) for _ in range(d.get('nf', 1))], rand_props(rng, [31], p=0.3)))
+            nr = d.get('nf', 1)
+            if self.rich and rng.random() < 0.1 * self.rich:
+                nr = max(1, nr + rng.choice([-1, 1, 2]))
+            s.feed(m.unsuback(pid, [rng.choice(m.UNSUBACK_REASONS) for _ in range(nr)], rand_props(rng, [31], p=0.3)))
             s.live_ops.pop(op)
         elif kind == 'pingresp':
             s.feed(m.pingresp())
@@ -2569,7 +2575,9 @@ def fam_C16(rng, tier):
         variants = [('wake', 'exec=wake', False, False), ('sweep', 'exec=sweep', False, False),
                     ('spurious', 'exec=wake', True, False), ('bytewise', 'exec=wake rdp=1', False, True),
                     ('sweepbytes', 'exec=sweep wr=pendone', False, True), ('wrone', 'exec=wake wr=one', False, False),
-                    ('wrpend', 'exec=sweep wr=pend rd=fill', True, False)]
+                    ('wrpend', 'exec=sweep wr=pend rd=fill', True, False),
+                    # a new waker for every poll, stale ones dead: with spurious polls the waker changes while nothing happened
+                    ('freshwk', 'exec=wake wk=fresh', False, False), ('freshspur', 'exec=sweep wk=fresh wr=pend', True, False)]
         for vn, cfg, spurious, bytewise in variants:
             ls = ['CFG ' + cfg]
             tasks = ['ctx']
@@ -2796,6 +2804,8 @@ def broker_replies(raw):
         return m.ack('pubrec', pk['pid'])
     if t == 6:
         return m.ack('pubcomp', pk['pid'])
+    if t == 5 and pk.get('reason', 0) < 0x80:
+        return m.ack('pubrel', pk['pid'])          # the broker's own QoS 2 message: PUBREC received, PUBREL sent
     if t == 8:
         return m.suback(pk['pid'], [0] * max(1, len(pk.get('filters', [1]))))
     if t == 10:
@@ -2843,9 +2853,11 @@ def reactive_scenarios(rng, tier, prefix):
         items = ['SETUP', 'CONNECT cid=63', m.feed(m.connack(0, 0, [(33, rng.choice([1, 2, 5]))] if rng.random() < 0.4 else [])), 'RUN',
                  'CLONE h0 h1']
         op = 0
+        inpid = 0
         held, live = set(), []
         for _ in range(rng.choice([3, 6, 12])):
-            k = rng.choice(['pub1', 'pub2', 'pub2', 'pub2', 'sub', 'unsub', 'ping', 'react', 'react', 'release', 'drop', 'holdctx'])
+            k = rng.choice(['pub1', 'pub2', 'pub2', 'pub2', 'sub', 'unsub', 'ping', 'react', 'react', 'release', 'drop', 'holdctx',
+                            'in1', 'in2', 'in2'])
             if k in ('pub1', 'pub2', 'sub', 'unsub', 'ping'):
                 op += 1
                 h = rng.choice([0, 1])
@@ -2861,6 +2873,9 @@ def reactive_scenarios(rng, tier, prefix):
                 if rng.random() < 0.45:
                     items.append(f'HOLD op{op}')       # the application is slow to poll this future again
                     held.add(op)
+            elif k in ('in1', 'in2'):
+                inpid = inpid + 1 if k != 'in2' or rng.random() < 0.7 else max(1, inpid)      # sometimes a re-delivery
+                items.append(m.feed(m.publish(b'a', b'x', int(k[2]), inpid, 0, 0)))
             elif k == 'react':
                 items.append(REACT)
             elif k == 'release' and held:
@@ -2894,7 +2909,7 @@ def reactive_scenarios(rng, tier, prefix):
     return out
 
 
-REACTIVE = ('C05', 'C06', 'C10', 'C15')
+REACTIVE = ('C05', 'C06', 'C08', 'C09', 'C10', 'C15')
 
 
 def with_common(fam, prefix, **kw):
